@@ -203,6 +203,15 @@ fn ws(s: &mut Src) -> String {
 fn ordinary_comment(s: &mut Src) -> String {
     let n = 1 + s.below(3);
     let words: Vec<String> = (0..n).map(|_| word(s).replace('*', "").replace('/', "")).collect();
+    if s.chance(1, 6) {
+        // empty / blank line comment, empty block comment
+        return match s.below(4) {
+            0 => "//\n".to_owned(),
+            1 => "// \n".to_owned(),
+            2 => "//\r\n".to_owned(),
+            _ => "/* */".to_owned(),
+        };
+    }
     if s.flip() {
         format!("/* {} */", words.join(" "))
     } else {
